@@ -30,6 +30,7 @@ type ReqBehav struct {
 	CloseAfter  bool `json:"close_after,omitempty"` // close right after replying
 	ResetAfter  bool `json:"reset_after,omitempty"`
 	NoReply     bool `json:"no_reply,omitempty"` // swallow the request (caller must time out / cancel)
+	Partial     int  `json:"partial,omitempty"`  // write only this many eighths of the reply, then close (1..7)
 }
 
 // ConnSc configures the client's i-th dial.
@@ -187,6 +188,23 @@ func (w *clientWorld) peerLoop(c *simnet.Conn, connIdx int) {
 			continue
 		}
 		var err error
+		if b.Partial > 0 && w.rawRespond == nil {
+			var resp *kmip.ResponseMessage
+			if w.respond != nil {
+				resp = w.respond(w, &req, connIdx)
+			} else {
+				resp = echoResponse(&req)
+			}
+			full := ttlv.MarshalTTLV(resp)
+			w.s.Fault("server-partial-reply")
+			_, _ = c.Write(full[:max(1, len(full)*b.Partial/8)])
+			if b.ResetAfter {
+				c.Reset()
+			} else {
+				_ = c.Close()
+			}
+			return
+		}
 		if w.rawRespond != nil {
 			_, err = c.Write(w.rawRespond(w, &req, connIdx))
 		} else {
